@@ -290,7 +290,7 @@ def body_iff_content_length(chk, prog, cfg, b, fn, rule="R4.body_iff_cl"):
         if has_cl:
             # (presence-preserving steps are fine: `map` keeps Some as Some, `transpose` / `map_err` / `?` only add the error exit)
             pure = all(core.re.search(r"Headers::(get|new)$|(::|>::)(deref|as_ref|as_str|borrow|clone|into|from)$|Option::<T>::(map|as_ref|as_deref|copied|cloned)$|"
-                                      r"Option::<std::result::Result<T, E>>::transpose$|Option::<Result<T, E>>::transpose$|::transpose$|Result::<T, E>::map_err$|ops::Try>::branch$", c) for c in calls)
+                                      r"Option::<std::result::Result<T, E>>::transpose$|Option::<Result<T, E>>::transpose$|::transpose$|Result::<T, E>::map_err$|ops::Try>::branch$|<impl str>::parse$|FromStr>?::from_str$", c) for c in calls)
             cl_sw.append((s_, info, pure, calls))
     chk.ob(rule, fn, "one test of headers.get(Content-Length) decides whether a body follows", len(cl_sw) == 1, f"{len(cl_sw)} tests", cfg=cfg)
     for s_, info, pure, calls in cl_sw[:1]:
